@@ -66,8 +66,8 @@ class C16(Prop):
             r1 = drive.ct_offline(text, names, w1)
             r2 = drive.ct_offline(text, names, w2)
         except Exception as e:
-            if all(x != x for x in e1.vs) or all(x != x for x in e2.vs):
-                v.skip = 'raised on a completely NaN-tainted formula'
+            if any(x != x for x in e1.vs) or any(x != x for x in e2.vs):
+                v.skip = 'raised on a NaN-tainted formula'
                 return v
             v.bad('raises:' + type(e).__name__, '%s: dense evaluate raised %s: %s' % (text, type(e).__name__, e))
             return v
